@@ -24,6 +24,8 @@ structure Cfg (α : Type) where
   fidx : List Nat
   /-- `filter_cor` of a non-unit filter (mean, slip, none = `some`), applied to the result; `none` = it aborts -/
   post : Array α → Option (Array α) := some
+  /-- `filter_def` of a non-unit filter (used inside the polynomial preconditioner's loop) -/
+  postDef : Array α → Option (Array α) := some
 
 /-- derived data held by the object -/
 structure PState (α : Type) where
@@ -98,7 +100,7 @@ def applyCore [Zero α] [One α] [Add α] [Sub α] [Mul α] [Div α] [Neg α] [O
   | .ssor => if A.rows != x.size then .error .abort else .ok (ssorApply c.ω c.fidx A x)
   | .poly m =>
     if st.invD.size != x.size || A.rows != x.size then .error .abort
-    else match polyApply tiny m c.fidx A st.invD x with
+    else match polyApplyF tiny m c.fidx c.postDef A st.invD x with
       | none => .error .abort
       | some r => .ok r
   | .ilu _ =>
@@ -142,6 +144,19 @@ def applyInCore [Zero α] [One α] [Add α] [Sub α] [Mul α] [Div α] [Neg α] 
     | some s => .ok (filterCor c.fidx (solveDu (s.matU st.iluN) st.iluN.dataD (solveIlIn (s.matL st.iluN) x)))
   | .matrix => if A.rows != x.size || A.usedElements != 0 then .error .abort else applyCore tiny c A st x
   | _ => applyCore tiny c A st x
+
+/-- the pair of arrays after `apply(vec_cor, vec_def)`: the correction vector and the (const) defect vector; for the
+    in-place call both are the same object -/
+def applyIO [Zero α] [One α] [Add α] [Sub α] [Mul α] [Div α] [Neg α] [OfNat α 777] (tiny : α → Bool) (c : Cfg α)
+    (A : Csr α) (st : PState α) (inPlace : Bool) (x : Array α) : Except Stop (Array α × Array α) :=
+  if inPlace then
+    match postFilter c (applyInCore tiny c A st x) with
+    | .error e => .error e
+    | .ok y => .ok (y, y)
+  else
+    match applyStep tiny c A st x with
+    | .error e => .error e
+    | .ok y => .ok (y, x)
 
 def applyInStep [Zero α] [One α] [Add α] [Sub α] [Mul α] [Div α] [Neg α] [OfNat α 777] (tiny : α → Bool) (c : Cfg α)
     (A : Csr α) (st : PState α) (x : Array α) : Except Stop (Array α) :=
